@@ -76,12 +76,19 @@ func (t *tStructProto) structPack(m erpc.Message) error {
 		return err
 	}
 
-	s, ok := m.Body().(thrift.TStruct)
-	if !ok {
-		return fmt.Errorf("thrift codec: %T does not implement thrift.TStruct", m.Body())
-	}
-	if err = s.Write(t.wProtocol); err != nil {
-		return err
+	if m.Body() == nil {
+		// a message without body (every error reply): an empty struct
+		if err = writeEmptyStruct(t.wProtocol); err != nil {
+			return err
+		}
+	} else {
+		s, ok := m.Body().(thrift.TStruct)
+		if !ok {
+			return fmt.Errorf("thrift codec: %T does not implement thrift.TStruct", m.Body())
+		}
+		if err = s.Write(t.wProtocol); err != nil {
+			return err
+		}
 	}
 
 	t.wProtocol.ClearWriteHeaders()
@@ -108,12 +115,19 @@ func (t *tStructProto) structUnpack(m erpc.Message) error {
 	}
 
 	m.UnmarshalBody(nil)
-	s, ok := m.Body().(thrift.TStruct)
-	if !ok {
-		return fmt.Errorf("thrift codec: %T does not implement thrift.TStruct", m.Body())
-	}
-	if err = s.Read(t.rProtocol); err != nil {
-		return err
+	if m.Body() == nil {
+		// nothing to bind the body to (unknown route, vetoed or unexpected message): skip it
+		if err = thrift.SkipDefaultDepth(t.rProtocol, thrift.STRUCT); err != nil {
+			return err
+		}
+	} else {
+		s, ok := m.Body().(thrift.TStruct)
+		if !ok {
+			return fmt.Errorf("thrift codec: %T does not implement thrift.TStruct", m.Body())
+		}
+		if err = s.Read(t.rProtocol); err != nil {
+			return err
+		}
 	}
 
 	if err = t.rProtocol.ReadMessageEnd(); err != nil {
@@ -126,4 +140,14 @@ func (t *tStructProto) structUnpack(m erpc.Message) error {
 
 	m.SetBodyCodec(codec.ID_THRIFT)
 	return m.SetSize(uint32(t.rwCounter.Readed()))
+}
+
+func writeEmptyStruct(p thrift.TProtocol) error {
+	if err := p.WriteStructBegin(""); err != nil {
+		return err
+	}
+	if err := p.WriteFieldStop(); err != nil {
+		return err
+	}
+	return p.WriteStructEnd()
 }
